@@ -22,6 +22,7 @@ MkRoot(c, n, ht, nc, al) ==
   [cls |-> c, len |-> n, hasT |-> ht, t0 |-> 0, per |-> 4,
    nchan |-> IF IsRadio(c) THEN nc ELSE 0, cf |-> QI(0), cbw |-> QI(1),
    align |-> IF IsRadio(c) THEN NormAlign(al, nc) ELSE "center",
+   areq |-> al,        \* the freq_align value the constructor is called with (normalised for odd nchan)
    k0 |-> 0, stride |-> 1, dly |-> 0, clo |-> 0]
 
 (***************************************************************************)
